@@ -352,6 +352,19 @@ func (s *Session) FlushOnly() (string, error) {
 	return w.String(), err
 }
 
+// ClearTerminate is client code that unblocks the stored session: it loads the record, resets TERMINATE
+// and saves it back (persisted mode).
+func (s *Session) ClearTerminate() error {
+	store := s.Open()
+	store.SetSession(s.Cfg.SessionId)
+	pe := persist.NewPersister(store).WithContent(state.NewState(s.Cfg.FlagCount), cache.NewCache())
+	if err := pe.Load(s.Cfg.SessionId); err != nil {
+		return err
+	}
+	pe.State.ResetFlag(state.FLAG_TERMINATE)
+	return pe.Save(s.Cfg.SessionId)
+}
+
 // Snapshot reads and decodes the stored session record through a fresh store handle.
 func (s *Session) Snapshot() (*state.State, *cache.Cache, []byte, error) {
 	store := s.Open()
